@@ -199,6 +199,8 @@ def ob_flowspec(x: int, y: int) -> bool:
         rule[comp] = P['expr']
     if P.get('with_prefix'):
         rule[1] = '192.88.3.0/24'
+    for k, v in (P.get('also') or {}).items():
+        rule[int(k)] = v
     rules = [rule]
     if P.get('second'):
         rules.append({1: '192.88.4.0/24', 2: '192.89.4.0/24'})
@@ -293,6 +295,17 @@ def obligations(tier, seed):
                                   {'dir': d, 'comp': comp, 'expr': '%s%d' % (op, v)}))
             out.append(ob('C07/flowspec/%s/comp=%d/list' % (d, comp), 'ob_flowspec',
                           {'dir': d, 'comp': comp, 'expr': '=80|=8080|>=1024', 'with_prefix': True}))
+        # operands of every width followed by more of the same rule: a further alternative, a later component
+        nxt = {3: 4, 4: 5, 5: 6, 6: 7, 7: 8, 8: 10, 10: 11, 11: None}
+        for comp in (3, 4, 5, 6, 7, 8, 10, 11):
+            for v in (255, 65535, 2 ** 24, 2 ** 32 - 1):
+                if quick and (comp + [255, 65535, 2 ** 24, 2 ** 32 - 1].index(v)) % 2:
+                    continue
+                out.append(ob('C07/flowspec/%s/comp=%d/=%d-then-alternative' % (d, comp, v), 'ob_flowspec',
+                              {'dir': d, 'comp': comp, 'expr': '=%d|=1' % v}))
+                if nxt[comp]:
+                    out.append(ob('C07/flowspec/%s/comp=%d/>=%d-then-component-%d' % (d, comp, v, nxt[comp]), 'ob_flowspec',
+                                  {'dir': d, 'comp': comp, 'expr': '>=%d' % v, 'also': {str(nxt[comp]): '=80'}}))
         out.append(ob('C07/flowspec/%s/two-rules' % d, 'ob_flowspec', {'dir': d, 'comp': 1, 'plen': 24, 'second': True}))
     out.append(ob('C07/flowspec/reach/nexthop', 'ob_flowspec', {'dir': 'reach', 'comp': 1, 'plen': 24, 'nexthop': '10.0.0.9'}))
     return out
